@@ -510,6 +510,11 @@ func c19Case(r *evid.Run, tier string, idx int, g *rng.R) {
 	for i := 0; i < nrand; i++ {
 		types = append(types, c19RandomType(g, 0))
 	}
+	// distinct types that print alike (function-local types called Row): what a type's fields mean
+	// is a matter of that type, not of its name
+	rows := c19RowTypes()
+	rng.Shuffle(g, rows)
+	types = append(types, rows...)
 	types = append(types, c19Bad...)
 	for _, t := range types {
 		for rep := 0; rep < 3; rep++ {
@@ -891,4 +896,41 @@ func presetPointers(v reflect.Value, path string) []ptrPreset {
 		}
 	}
 	return out
+}
+
+func c19RowTypes() []reflect.Type {
+	a := func() reflect.Type {
+		type Row struct {
+			ID   string `xsel:"@id"`
+			Name string `xsel:"name()"`
+			N    int    `xsel:"count(*)"`
+		}
+		return reflect.TypeOf(Row{})
+	}()
+	b := func() reflect.Type {
+		type Row struct {
+			Text string `xsel:"."`
+			Note string
+			Kids []string `xsel:"*"`
+		}
+		return reflect.TypeOf(Row{})
+	}()
+	c := func() reflect.Type {
+		type Row struct {
+			A float64 `xsel:"count(@*)"`
+		}
+		return reflect.TypeOf(Row{})
+	}()
+	d := func() reflect.Type {
+		type Row struct {
+			Note string
+			Name string `xsel:"local-name()"`
+			ID   string `xsel:"string(@id)"`
+			Sub  *struct {
+				V string `xsel:"."`
+			} `xsel:"*[1]"`
+		}
+		return reflect.TypeOf(Row{})
+	}()
+	return []reflect.Type{a, b, c, d}
 }
